@@ -11,6 +11,9 @@ import (
 
 func (c *Ctx) runContract(rep, real *ssa.Function, args []Value, st *State, site ssa.Instruction, prove bool) []Outcome {
 	cf := &contractFrame{fn: rep, real: real, args: args, prove: prove}
+	if !prove {
+		cf.taint = c.contractArgsTainted(args, st)
+	}
 	if prove {
 		cf.memSnap = make(Mem, len(st.mem))
 		for k, v := range st.mem {
